@@ -34,11 +34,15 @@ func (ld *Loaded) staticScans(id string) []*FuncResult {
 				has = true
 			}
 		}
-		if has && (fd.Kind == "atomic" || fd.Kind == "guarded_by" || fd.Kind == "published_by" || fd.Kind == "owned_by") {
+		if has && (fd.Kind == "atomic" || fd.Kind == "guarded_by" || fd.Kind == "published_by" || fd.Kind == "owned_by" || fd.Kind == "syncvalue" || fd.Kind == "elemsync") {
 			out = append(out, ld.protectScan(fd))
 			if fd.Kind != "atomic" {
 				continue
 			}
+			continue
+		}
+		if has && fd.Kind == "lockwrapper" {
+			out = append(out, ld.lockWrapperScan(fd))
 			continue
 		}
 		if has && fd.Kind == "nouse" {
@@ -105,6 +109,11 @@ func (ld *Loaded) staticScans(id string) []*FuncResult {
 				}
 			}
 		}
+		for _, a := range ld.accessesOf(tname, fd.Field) {
+			if a.other && !ctors[fnKey(rootFn(a.fn))] {
+				bad = append(bad, fmt.Sprintf("address of the field escapes in %s: %s", a.fn.RelString(typesPkgOf(a.fn)), a.in))
+			}
+		}
 		o := &Obligation{Name: shortStem(fd.Pkg, fd.Type) + "#frame:" + fd.Field + ".immutable", Kind: "frame", Static: true, StaticOK: len(bad) == 0, Props: fd.Props}
 		o.Detail = fmt.Sprintf("field %s.%s is stored only in %s (%d stores found)", fd.Type, fd.Field, fd.Arg, nStores)
 		if len(bad) > 0 {
@@ -112,6 +121,7 @@ func (ld *Loaded) staticScans(id string) []*FuncResult {
 		}
 		out = append(out, &FuncResult{Key: "static:" + o.Name, Obls: []*Obligation{o}})
 	}
+	out = append(out, ld.coverageScans(id)...)
 	return out
 }
 
